@@ -164,10 +164,24 @@ static jwt_value_error_t jwt_set_json(json_t *which, jwt_value_t *jval)
 
 	if (jval->name == NULL || !strlen(jval->name)) {
 		/* Update the whole thing */
-		if (jval->replace)
+		if (jval->replace) {
 			ret = json_object_update(which, json_val);
-		else
-			ret = json_object_update_missing(which, json_val);
+		} else {
+			const char *key;
+			json_t *val;
+
+			/* Not json_object_update_missing(): it ignores a
+			 * failed insert and returns 0. */
+			ret = json_is_object(json_val) ? 0 : -1;
+			json_object_foreach(json_val, key, val) {
+				if (json_object_get(which, key))
+					continue;
+				if (json_object_set(which, key, val)) {
+					ret = -1;
+					break;
+				}
+			}
+		}
 
 		/* Done with this. */
 		json_decrefp(&json_val);
